@@ -3,7 +3,7 @@
    Tables.v on this run, with grace period g (the source's value is grace_ns). *)
 From Coq Require Import List NArith ZArith Bool.
 From FwdLib Require Import Bytes.
-From G03 Require Import Tables Tunnel TunnelProofs Abstract Weak ReplyReader Deadlines Check OracleProofs Obligations.
+From G03 Require Import Tables Tunnel TunnelProofs Abstract Weak ReplyReader Switchover Deadlines Check OracleProofs Obligations.
 Import ListNotations.
 Open Scope N_scope.
 
@@ -111,6 +111,40 @@ Theorem T03_forced_close_only_after_grace : forall g e k tr s, (0 <= g)%Z ->
   exists t0, s_first s = Some t0 /\ (t0 + g <= s_clock s)%Z.
 Proof. exact (fun g e k tr s Hg H => forced_after_grace _ (shape_ok_tables g Hg) e k tr s H). Qed.
 Print Assumptions T03_forced_close_only_after_grace.
+
+(* Bytes the client sent in the same segment(s) as the request head.  The proxy parses the head
+   through a bufio reader sitting on the client connection; whatever that reader holds behind the
+   head are the tunnel's early bytes, the rest of the client's stream is still in the connection.
+   For EVERY client byte stream, EVERY schedule of how much the connection hands over per Read, every
+   reader size, and EVERY interleaving of the tunnel that follows: what the target receives is a
+   prefix of exactly the bytes that follow the request head in the client's stream ... *)
+Theorem T03_early_data_switchover : forall g size stream sched head r' k later tr s, (0 <= g)%Z ->
+  client_head_read size stream sched = Some (head, r') ->
+  steps (tables_shape g) (init (r_buf r') [] k None None) tr s ->
+  (exists sent, writes CT tr = r_rest r' ++ sent /\ prefix_of sent later) ->
+  stream ++ later = head ++ tunnel_bytes r' later /\
+  prefix_of (d_rcv (get CT s)) (tunnel_bytes r' later).
+Proof.
+  exact (fun g size stream sched head r' k later tr s Hg Hr Hs Hw =>
+    conj (client_stream_split size stream sched head r' Hr later)
+         (switchover_prefix _ (shape_ok_tables g Hg) r' k later tr s Hs Hw)).
+Qed.
+Print Assumptions T03_early_data_switchover.
+
+(* ... and all of them, with end-of-stream behind, once the client has shut down and the proxy is at rest. *)
+Theorem T03_early_data_switchover_complete : forall g size stream sched head r' k later tr s, (0 <= g)%Z ->
+  client_head_read size stream sched = Some (head, r') ->
+  steps (tables_shape g) (init (r_buf r') [] k None None) tr s ->
+  writes CT tr = r_rest r' ++ later -> quiet (tables_shape g) s -> s_forced s = false -> d_wcl (get CT s) = true ->
+  d_rcv (get CT s) = tunnel_bytes r' later /\ d_eof (get CT s) = true.
+Proof.
+  exact (fun g size stream sched head r' k later tr s Hg _ Hs =>
+    switchover_complete _ (shape_ok_tables g Hg) r' k later tr s Hs).
+Qed.
+Print Assumptions T03_early_data_switchover_complete.
+
+Example T03_early_data_example : early_example_ok = true.
+Proof. exact ob_early_example. Qed.
 
 (* No deadline armed on the client connection before the tunnel survives into it: for every
    configuration of the idle / read / read-header / write timeouts, every reading of the clock and
